@@ -340,10 +340,6 @@ func (p *Parser) function(kind string) (ast.Stmt, error) {
 	parameters := []token.Token{}
 	if !p.check(token.RIGHT_PAREN) {
 		for {
-			if len(parameters) >= 255 {
-				return nil, p.error(p.peek(), "Can't have more than 255 parameters.")
-			}
-
 			pp, err := p.consume(token.IDENTIFIER, "Expect parameter name.")
 			if err != nil {
 				return nil, err
@@ -352,6 +348,11 @@ func (p *Parser) function(kind string) (ast.Stmt, error) {
 
 			if !p.match(token.COMMA) {
 				break
+			}
+			// Nothing valid can follow a comma behind the 255th parameter:
+			// report the limit there, at the first token that goes too far.
+			if len(parameters) >= 255 {
+				return nil, p.error(p.previous(), "Can't have more than 255 parameters.")
 			}
 		}
 	}
